@@ -580,7 +580,13 @@ def oracle(ctx):
         ctx.case(("resolve", r["tzvar"], tuple(r["tzfiles"]), tuple(r["tzpaths"]), tuple(r["vendored"]), r["name"]),
                  nontrivial=r["impl"] not in ("ok none",))
         if r["impl"] != r["spec"]:
-            kind = "resolve_unreadable_file_raises" if r["spec"] == "not-a-tzfile" else "resolve_other_difference"
+            if r["spec"] == "not-a-tzfile":
+                # NOT required by C18: an unreadable / non-TZif file met at a point where the code has no handler
+                # (absolute path; struct.error from truncated data) makes gettz raise.  The property speaks of
+                # well-formed requests; this is recorded as an observation only (DESIGN §0.2), never as a violation.
+                ctx.count("resolve_unreadable_file_raises_not_required")
+                continue
+            kind = "resolve_other_difference"
             ctx.count(kind)
             if ctx.hist[kind] <= 8:            # (the violation list is capped: keep room for everything else)
                 ctx.violation("gettz.nocache(%r) gave %s, the documented resolution order gives %s" % (r["name"], r["impl"], r["spec"]),
@@ -760,8 +766,6 @@ def zone_laws(ctx, tz, env):
 
 KNOWN = {
     "D-C18-clear": lambda v: v["case"].get("op") == "cache_clear_identity",
-    "D-C18-badfile": lambda v: v["case"].get("op") == "resolve" and v["case"].get("spec") == "not-a-tzfile"
-                               and str(v["case"].get("impl", "")).startswith("err "),
 }
 
 
